@@ -291,10 +291,12 @@ pub fn run(tier: &Tier) -> i32 {
         ];
         crate::seqx::explore_sequences(&rep, &c, &focus, &crate::seqx::context_alphabet(), seq_depth, &crate::seqx::default_inits())
     };
+    // all 2^32 word operand pairs (quick: 2^26) by direct calls of word_and / word_or / word_xor / word_test
+    let direct = crate::direct::run_group(&rep, &c, "logic", tier.name());
     let mut cov = Coverage::default();
     cov.exhaustive = true;
-    cov.rule = "every case = (source instruction, pre-state) executed through Preprocessor+Interpreter, compared in full with the reference (shift/rotate = count single-bit steps). Canonical register forms: all 256 byte values x all 256 counts x carry-in x 2 prior flag words for the 8 shift/rotate spellings, immediate and CL counts (words: boundary lattice in quick, all 65536 values in thorough); logic ops all 2^16 byte pairs; NOT all values; plus every operand form of syntax.md x boundary values x boundary counts. distinct_nontrivial = distinct (instruction, pre-state) pairs Word operands also run through 512 values away from the boundaries (every low byte under a fixed high byte and the reverse) against the lattice, both ways round, and through 8 fixed RELATIONS between the two operands (equal, low byte complemented, complemented, successor, bytes swapped, negated, doubled, halved+0x4000) for every 16-bit x. Histories: every sequence of up to 3 (thorough 4) instructions over the property's instructions plus a 22-instruction context alphabet (register, memory, stack and flag traffic, data-label operands, DS/ES loaded by pop and by mov), with at least one of the property's instructions, as ONE program on ONE machine and ONE Interpreter object from 3 initial states, compared with the reference after every step (whole memory on every 16th run)".into();
-    cov.bounds = json!({"counts": 256, "byte_values": 256, "word_values": if tier.thorough {65536} else {wl.len()}, "word_byte_structured_values": wbytes.len(), "word_relation_pairs": wrel.len(), "shift_forms": sf.len(), "logic_forms": lf.len(), "sequence_depth": seq_depth, "sequences": seq.sequences, "sequence_steps": seq.steps, "sequence_whole_memory_audits": seq.audits, "tier": tier.name()});
+    cov.rule = "every case = (source instruction, pre-state) executed through Preprocessor+Interpreter, compared in full with the reference (shift/rotate = count single-bit steps). Direct calls (separate binary vdirect, bounds.direct): word_and/or/xor/test for every first operand x every second operand (quick: 1 024 per first operand) x 4 prior flag words. Canonical register forms: all 256 byte values x all 256 counts x carry-in x 2 prior flag words for the 8 shift/rotate spellings, immediate and CL counts (words: boundary lattice in quick, all 65536 values in thorough); logic ops all 2^16 byte pairs; NOT all values; plus every operand form of syntax.md x boundary values x boundary counts. distinct_nontrivial = distinct (instruction, pre-state) pairs Word operands also run through 512 values away from the boundaries (every low byte under a fixed high byte and the reverse) against the lattice, both ways round, and through 8 fixed RELATIONS between the two operands (equal, low byte complemented, complemented, successor, bytes swapped, negated, doubled, halved+0x4000) for every 16-bit x. Histories: every sequence of up to 3 (thorough 4) instructions over the property's instructions plus a 22-instruction context alphabet (register, memory, stack and flag traffic, data-label operands, DS/ES loaded by pop and by mov), with at least one of the property's instructions, as ONE program on ONE machine and ONE Interpreter object from 3 initial states, compared with the reference after every step (whole memory on every 16th run)".into();
+    cov.bounds = json!({"direct": direct, "counts": 256, "byte_values": 256, "word_values": if tier.thorough {65536} else {wl.len()}, "word_byte_structured_values": wbytes.len(), "word_relation_pairs": wrel.len(), "shift_forms": sf.len(), "logic_forms": lf.len(), "sequence_depth": seq_depth, "sequences": seq.sequences, "sequence_steps": seq.steps, "sequence_whole_memory_audits": seq.audits, "tier": tier.name()});
     cov.assumptions = common_assumptions();
     let cov = finish_cov(&c, cov);
     rep.finish(cov)
